@@ -280,6 +280,7 @@ package common
 //@ func runGenPrimeRoutine
 //@   props C19 C14 C06
 //@   requires !isnil(ctx) && primeCh != nil && errCh != nil && primeCh != errCh && waitGroup != nil && !isnil(rand) && pBitLen >= 6 && pBitLen <= 1048576
+//@   requires [C19.error-send-cannot-block] sent(errCh) - recvd(errCh) < chancap(errCh)
 //@   modifies sent(primeCh), sent(errCh)
 //@   ensures [C19.every-pair-handed-out-is-a-safe-prime-pair-of-the-requested-size] forall k in old(sent(primeCh))..sent(primeCh) :: sgpOK(gsp(primeCh, k), pBitLen)
 //@   ensures [pairs-are-new-objects] forall k in old(sent(primeCh))..sent(primeCh) :: (fresh(gsp(primeCh, k)) && fresh(gsp(primeCh, k).p) && fresh(gsp(primeCh, k).q))
@@ -290,9 +291,13 @@ package common
 
 //@ func runGenPrimeRoutine$1
 //@   props C19 C14 C06
+//@   deadpoints 1
+//@   note the one dead point is the fall-through block go/ssa emits after the last case of a blocking select
 //@   requires !isnil(ctx) && primeCh != nil && errCh != nil && primeCh != errCh && waitGroup != nil && !isnil(rand)
 //@   requires qBitLen >= 5 && qBitLen <= 1048576 && 1 <= b && b <= 8 && b == ite(qBitLen % 8 == 0, 8, qBitLen % 8) && len(bytes) == (qBitLen + 7) / 8 && arr(bytes) != arr(smallPrimes)
 //@   requires sgpScratch(p, q, bigMod)
+//@   requires [C19.error-send-cannot-block] sent(errCh) - recvd(errCh) < chancap(errCh)
+//@   nonblocking-sends
 //@   modifies sent(primeCh), sent(errCh), val(p), val(q), val(bigMod), bytes[*], cellof(p), cellof(q)
 //@   ensures [C19.every-pair-handed-out-is-a-safe-prime-pair-of-the-requested-size] forall k in old(sent(primeCh))..sent(primeCh) :: sgpOK(gsp(primeCh, k), qBitLen + 1)
 //@   ensures [pairs-are-new-objects] forall k in old(sent(primeCh))..sent(primeCh) :: (fresh(gsp(primeCh, k)) && (fresh(gsp(primeCh, k).p) || gsp(primeCh, k).p == old(p)) && (fresh(gsp(primeCh, k).q) || gsp(primeCh, k).q == old(q)))
@@ -326,6 +331,7 @@ package common
 //@   ensures [pairs-are-new-objects] result1 == nil ==> (forall i in 0..numPrimes :: (fresh(result0[i]) && fresh(result0[i].p) && fresh(result0[i].q)))
 //@   loop 0 invariant 0 <= i && primeCh != nil && errCh != nil && primeCh != errCh && fresh(primeCh) && fresh(errCh) && waitGroup != nil && !isnil(generatorCtx) && cancelGeneratorCtx != nil && len(primes) == 0 && cap(primes) == numPrimes && fresh(arr(primes))
 //@   loop 0 invariant !closed(primeCh) && !closed(errCh) && recvd(primeCh) == 0 && recvd(errCh) == 0 && sent(primeCh) >= 0 && sent(errCh) >= 0
+//@   loop 0 invariant [C19.one-error-slot-per-worker] sent(errCh) <= i && chancap(errCh) == concurrency
 //@   loop 0 invariant forall k in 0..sent(errCh) :: !isnil(as(sentv(errCh, k), "error"))
 //@   loop 0 invariant forall k in 0..sent(primeCh) :: (sgpOK(gsp(primeCh, k), bitLen) && fresh(gsp(primeCh, k)) && fresh(gsp(primeCh, k).p) && fresh(gsp(primeCh, k).q))
 //@   loop 1 invariant primeCh != nil && errCh != nil && primeCh != errCh && fresh(primeCh) && fresh(errCh) && waitGroup != nil && cancelGeneratorCtx != nil && fresh(arr(primes)) && cap(primes) >= numPrimes
